@@ -6,10 +6,14 @@ CONSTANTS
     Design = "temp"
     Policy = "trust"
     RenameAt = "closed"
+    Memo = FALSE
+    MaxClear = 0
+    MaxExtra = 0
     MaxCrash = 2
     Fifo = TRUE
     EmitOn = FALSE
 SPECIFICATION Spec
 INVARIANT NoRaise
+INVARIANT RightResults
 PROPERTY Terminates
 CHECK_DEADLOCK TRUE
